@@ -219,6 +219,13 @@ def run(rep, facts, tier):
             if r is not None:
                 n += 1
         counts[name] = n
+        if name == "A":
+            # VariableBaseMSM (arkworks default, NEGATION_IS_CHEAP) adds and subtracts mixed affine/projective operands in its
+            # bucket method: those operator forms are part of "MSM equals the sum of the individual products"
+            from . import c04
+            for path, b, tr, sorts in G.enumerate_ops(cfg, c04.TRAITS):
+                if "affinepoint" in sorts or G.sort_of(b.get("impl_self", ""))[0] == "affinepoint":
+                    G.check_fwd(rep, cfg, path, b, tr, sorts, loc, "C05")
         named(rep, cfg, loc)
         if name == "M":
             ladder(rep, cfg)
